@@ -768,11 +768,16 @@ class ApplicationStartJobs(ApplicationJobs):
             # for all commands, select an identifier from the chosen node
             for command in commands:
                 process_load = command.process.rules.expected_load
+                # NOTE: the Supvisors instances of the node may know different programs
+                candidates = [identifier for identifier in self.identifiers
+                              if identifier in command.process.info_map
+                              and not command.process.disabled_on(identifier)]
                 identifier = get_supvisors_instance(self.supvisors, self.starting_strategy,
-                                                    self.identifiers, process_load, load_request_map)
+                                                    candidates, process_load, load_request_map)
                 self.logger.debug(f'ApplicationStartJobs.distribute_to_single_node: {command.process.namespec}'
                                   f' is planned to start on Supvisors={identifier}')
-                command.update_identifier(identifier)
+                if identifier:
+                    command.update_identifier(identifier)
         else:
             self.logger.debug('ApplicationStartJobs.distribute_to_single_node: no Supvisors instance found to plan'
                               f' the starting of {self.application_name} with load={application_load}')
